@@ -452,6 +452,42 @@ func checkGameSide(c *Ctx) {
 		}
 		c.Check(good, "R6", "current-player-validator:"+v.Name(), p.Pos(v.Pos()), "ok ⇒ player exists ∧ index == current player", "current-player validator has a success exit without (GetPlayer(idx) != nil ∧ CurrentPlayer == idx)")
 	}
+	// converse (C11 needs answers from asked players to be accepted): a validator refuses only for one of its reasons
+	refusalReasons := func(v *ssa.Function, reasons func(gs []Guard) bool, what string) {
+		_, errs, _, errRets, ab := p.ExitsWithGuards(v)
+		ok := !ab && len(errs) > 0
+		where := p.Pos(v.Pos())
+		for i, gs := range errs {
+			if !reasons(gs) {
+				ok = false
+				where = p.InstrPos(errRets[i])
+			}
+		}
+		c.Check(ok, "R6", "validator-refuses-only-for-cause:"+v.Name(), where, "every refusal has one of the validator's reasons", "the "+what+" refuses a move although none of its reasons holds (or for the opposite of a reason)")
+	}
+	for v := range playValidators {
+		refusalReasons(v, func(gs []Guard) bool {
+			noPlayer := nilGuard(gs, true, func(s *Sym) bool {
+				return s.IsCall("pokerface.GameState.GetPlayer") && s.Args[1].Strip().Kind == "param"
+			})
+			notTurn := cmpHolds(gs, func(l, r *Sym, op token.Token) bool {
+				return op == token.NEQ && l.Strip().IsField("Status", "CurrentPlayer") && r.Strip().Kind == "param"
+			})
+			return noPlayer || notTurn
+		}, "current-player validator")
+	}
+	for v := range actValidators {
+		refusalReasons(v, func(gs []Guard) bool {
+			noPlayer := nilGuard(gs, true, func(s *Sym) bool {
+				return s.IsCall("pokerface.GameState.GetPlayer") && s.Args[1].Strip().Kind == "param"
+			})
+			notAllowed := guardedBy(gs, false, func(s *Sym) bool {
+				return s.IsCall("pokerface.GameState.HasAction") && len(s.Args) == 3 && s.Args[1].Strip().Kind == "param" && s.Args[2].Strip().Kind == "param"
+			})
+			noGroup := nilGuard(gs, true, func(s *Sym) bool { return s.IsField("game", "rg") })
+			return noPlayer || notAllowed || noGroup
+		}, "allowed-action validator")
+	}
 	for v := range actValidators {
 		oks, _, _, _, ab := p.ExitsWithGuards(v)
 		good := !ab && len(oks) > 0
